@@ -165,8 +165,10 @@ class Env(gpp.UGenParameter, gpp.NodeParameter):
                  release_node=None, loop_node=None, offset=0):
         super(gpp.UGenParameter, self).__init__(self)
         self.levels = levels or [0, 1, 0]  # Can't be empty or zero either.
+        if times is None or (isinstance(times, list) and not times):
+            times = [1, 1]
         self.times = utl.wrap_extend(
-            utl.as_list(times or [1, 1]), len(self.levels) - 1)
+            utl.as_list(times), len(self.levels) - 1)
         self.curves = curves
         self.release_node = release_node
         self.loop_node = loop_node
